@@ -5,6 +5,9 @@ set -e
 export CARGO_NET_OFFLINE=true
 cd /verif/sim
 cargo build --release --offline -p essim 2>&1 | tail -2
+# C05 runs the same seeds in two more build configurations
+cargo build --profile wrap --offline -p essim 2>&1 | tail -1
+cargo build --offline -p essim 2>&1 | tail -1
 # E2: Miri sysroot + dependencies of the untouched crates
 cd /verif/miri-real
 cargo +nightly miri setup 2>&1 | tail -1 || true
